@@ -6,6 +6,7 @@ import CallbagModel.Inv.ComposeComplete
 import CallbagModel.Closed.Linear
 import CallbagModel.Closed.Prog
 import CallbagModel.Closed.Prog2
+import CallbagModel.Closed.ProgTerm
 /-!
 # C06 — iterable programming: pull pipelines compute the corresponding list function
 
@@ -209,5 +210,22 @@ theorem C06_every_program (p : Closed.Prog2) (hok : p.ok) :
 theorem C06_every_program_safe (p : Closed.Prog2) (hok : p.ok) :
     ∀ s, SReach (Closed.thenM p.toM Closed.forEachM).M s → Safe s ∧ SafeFor 4 s ∧ SafeFor 5 s :=
   Closed.prog2_safe p hok
+
+/-! ## "… and then completes without stalling"
+
+`Inv/ComposeTerm.lean`: syntactic POTENTIALS — a machine has a potential if every micro-step of every handler decreases a measure
+(`Ψ` of the state + `ρ` of the running location / `ω` of a waiting one) by more than what the callee of each call may spend; potentials
+compose through `compose`, `plug` and `flatPlug` (the callee's `ω` is charged at its entry location), `from_iter` pays for its loop with
+the length of the remaining list, all other handlers are loop-free.  With no panic (from the correctness theorems) this gives, for
+EVERY program: from every reachable configuration the network runs into an environment turn (no divergence between two closure
+calls), and if the closures keep returning the application returns (`Drain`: operator steps and environment RETURNS only) — so the last
+clause of `C06_every_program` is never vacuous. -/
+
+theorem C06_every_program_completes (p : Closed.Prog2) (hok : p.ok) :
+    (∀ s, SReach (Closed.thenM p.toM Closed.forEachM).M s → ∃ n, EnvTurn (advance (Closed.thenM p.toM Closed.forEachM).M n s)) ∧
+    (∀ s, SReach (Closed.thenM p.toM Closed.forEachM).M s → ∃ t, SReach (Closed.thenM p.toM Closed.forEachM).M t ∧ t.stack = [] ∧
+      (s.tr ≠ [] → t.tr ≠ []) ∧ ComposeTerm.Drain (Closed.thenM p.toM Closed.forEachM).M s t) ∧
+    (∃ s, SReach (Closed.thenM p.toM Closed.forEachM).M s ∧ s.stack = [] ∧ s.tr ≠ [] ∧ applied s.tr = listSem p.toPipe) :=
+  ⟨Closed.prog2_progress p hok, Closed.prog2_returns p hok, Closed.prog2_nonvacuous p hok⟩
 
 end Cb.Thm
